@@ -128,3 +128,5 @@ TEXTS["C12"] = {
     "level_note": "Trusts the harness link (re-follow from the last delivered offset, one outstanding Follow call per leader at a time, stale incarnations answer with an error), the cluster quiescence criterion built on the leader/follower progress hooks, and the standalone database as oracle (C01's subject).",
     "technique": "stateful property-based testing (rapid) with injected faults (restarts, stale directory images, link cuts, leader restarts), differential + accounting oracle against a standalone database",
 }
+
+TEXTS["C20"]["level_text"] = TEXTS["C20"]["level_text"] + " A third part runs generated queries on a partitioned cluster twice - followers answering in-process and the same followers answering over the real gRPC path - and requires equal rows, errors and row order."
